@@ -70,7 +70,7 @@ class RDMol2StereoMolGraph:
     lone_pair_stereo: bool = True
     resonance: bool = True
     _max_resonance_structures: int = 100
-    _min_trans_ring_size: int = 7
+    _min_trans_ring_size: int = 8
 
     def __call__(self, rdmol: Chem.Mol) -> StereoMolGraph:
         smg = self.smg_from_rdmol(rdmol)
